@@ -1,5 +1,5 @@
 (** Proofs for C09 (special functions) on the real carrier. *)
-From Compute Require Import Proofs.C09_base Proofs.C09_lanczos1 Proofs.C09_lanczos2 Proofs.C09_lanczos3.
+From Compute Require Import Proofs.C09_base Proofs.C09_lanczos1 Proofs.C09_lanczos2 Proofs.C09_lanczos3 Proofs.C09_digamma_u.
 
 (** ** Tie A: the regenerated binary64 constants are the roundings of the decimal literals *)
 Lemma all_literals_ok : forallb lit_ok all_literals = true.
@@ -88,8 +88,7 @@ Qed.
 Lemma digamma_asym_recurrence x : 6 <= x <= 1000000 ->
   Rabs (digamma_asym RO (x + 1) - digamma_asym RO x - 1 / x) <= 1e-10.
 Proof.
-  intros Hx. unfold_special.
-  interval with (i_bisect x, i_taylor x, i_degree 12, i_prec 90, i_depth 40).
+  intros Hx. apply digamma_asym_recurrence_all. lra.
 Qed.
 
 Lemma digamma_ge6 fuel x : 6 <= x -> digamma RO (S fuel) x = Some (digamma_asym RO x).
